@@ -389,6 +389,10 @@ func init() {
 		return nil
 	}
 	register(&Check{ID: "C13", Engine: "A", Run: func(c *Ctx) {
+		if msg := hollowFirst(); msg != "" {
+			// alias types first met in hollow form: the order in which values of a type arrive must not matter
+			c.Violation("hollow-value-seen-first", "after nil pointers / zero values of an alias type had been the first values of that type the library saw: "+msg, nil, 0)
+		}
 		c.Rule = "BFS to fix-point: state = element classes (primitive, nil, Stack, alias, alias with String, pointer to alias, pointer to Stack, nil pointer to alias / to Stack, Condition, Condition holding a Stack) x no-nesting flag; alphabet = every push batch up to the batch bound over those classes, set/clear/toggle of the option, Pop; a Condition machine does the same with SetExpression; non-trivial = distinct (state size, operation) where a Stack-like value was offered while the option was set"
 		c.Exhaustive = true
 		for _, cfg := range c13Configs(c) {
